@@ -17,11 +17,15 @@
   (`Sheet1!A:A` = `_REF_("Sheet1!A1:A3")`, a dependant of the bounded range in `dep_graph`) is modelled as the bounded
   range node itself.
 
-  Where the model follows the PROPERTY (C05) and not the code:
+  Where the model follows the PROPERTY (C05) and not the pinned code:
     * `clip` is "the cells of those columns/rows inside the used area"; the code computes `addr & used` with the
       unbounded corner 0, which drops the last column/row when the used area reaches MAX_COL/MAX_ROW
-      (Props/C05: `C05_clip_is_inter_partial`, `C05_clip_inter_counterexample`);
-    * an unbounded address whose clip is a single cell evaluates to that cell (the code recurses for ever / asserts).
+      (Props/C05: `C05_clip_is_inter_*_partial`, `C05_clip_inter_counterexample`; known finding unbounded.maxedge);
+    * the used area is a fixed attribute of the sheet (`Layout.used`), the alias cell of an unbounded address shares the
+      cache of the bounded range node, an unbounded address whose clip is a single cell evaluates to that cell, and a
+      sheet-less unbounded address gets the active sheet like any other — each was a defect of the pinned code found
+      by the C05 correspondence and repaired in /repo (fix: ba0ae4c, 8693132, 36bdd56, 986aa9d, aadfafa, 3bc9dae), so
+      code and model now coincide.
   An unbounded address whose clip is empty is outside the property (no cell to agree with): `Out.err`, as the code raises.
 
   Import-free apart from Engine/EngineInst/Addr; structural recursion only; executable.
